@@ -89,6 +89,10 @@ def expand(repo='/repo', timeout=900, force=False, info=None):
         if 'impl MontConfig' in text:
             if info is not None:
                 info['hit'] = True
+            try:
+                os.utime(cp)                    # the eviction below is least-recently-used
+            except OSError:
+                pass
             return text
     t0 = time.time()
     work = os.path.join(BUILD, 'work')
@@ -103,9 +107,13 @@ def expand(repo='/repo', timeout=900, force=False, info=None):
     if os.path.exists(lock):
         shutil.copy(lock, os.path.join(work, 'Cargo.lock'))
     env = dict(os.environ, CARGO_TARGET_DIR=TARGET, CARGO_NET_OFFLINE='true', CARGO_TERM_COLOR='never')
+    tc = [TOOLCHAIN]
+    if _toolchain_line().startswith('no-'):
+        # no nightly toolchain installed: the default toolchain accepts -Z flags with RUSTC_BOOTSTRAP=1
+        tc, env['RUSTC_BOOTSTRAP'] = [], '1'
     # `-C debug-assertions=off` (this crate only): `debug_assert_eq!` in the generated sum_of_products expands to
     # `if false {..}` -- the translator models the release semantics (wrapping u64 arithmetic, no debug assertions)
-    cmd = ['cargo', TOOLCHAIN, 'rustc', '--offline', '-j', JOBS, '--lib', '--', '-Zunpretty=expanded',
+    cmd = ['cargo'] + tc + ['rustc', '--offline', '-j', JOBS, '--lib', '--', '-Zunpretty=expanded',
            '-C', 'debug-assertions=off']
     try:
         p = subprocess.Popen(cmd, cwd=work, env=env, stdout=subprocess.PIPE, stderr=subprocess.PIPE,
